@@ -3,7 +3,8 @@
 # /root/.vp/BASELINE.json. Exit 0 iff every stable test passed. /repo must be clean afterwards.
 export GOFLAGS=-mod=mod GOPROXY=off GOSUMDB=off GOTOOLCHAIN=local
 out=$(mktemp)
-(cd /repo && go test -json -vet=off -count=1 -timeout 25m ./... > "$out" 2>/dev/null)
+REPO="${BASELINE_REPO:-/repo}"
+(cd "$REPO" && go test -json -vet=off -count=1 -timeout 25m ./... > "$out" 2>/dev/null)
 # Several packages of the suite rewrite the same files under _fixtures/refactor and restore them
 # afterwards; run side by side they occasionally trip over each other (BASELINE.json lists two of them
 # as flaky for that reason). Packages with a failure are therefore re-run once, one at a time, on a
@@ -19,9 +20,9 @@ print(" ".join(sorted(pk)))
 PY
 )
 if [ -n "$failed" ]; then
-  git -C /repo checkout -- _fixtures 2>/dev/null
-  (cd /repo && go test -json -vet=off -count=1 -p 1 -timeout 25m $failed >> "$out" 2>/dev/null)
-  git -C /repo checkout -- _fixtures 2>/dev/null
+  git -C "$REPO" checkout -- _fixtures 2>/dev/null
+  (cd "$REPO" && go test -json -vet=off -count=1 -p 1 -timeout 25m $failed >> "$out" 2>/dev/null)
+  git -C "$REPO" checkout -- _fixtures 2>/dev/null
 fi
 python3 - "$out" <<'PY'
 import json,sys
@@ -41,5 +42,5 @@ sys.exit(1 if bad else 0)
 PY
 rc=$?
 rm -f "$out"
-git -C /repo status --short | head -5
+git -C "$REPO" status --short | head -5
 exit $rc
